@@ -51,6 +51,14 @@ $(B)/bin/rows: $(B)/h/rows.o $(B)/libppl.a
 	@mkdir -p $(dir $@)
 	$(CXX) $(OPT) -o $@ $< $(B)/libppl.a -lgmpxx -lgmp $(if $(filter asan,$(FL)),$(LDSAN),)
 
+$(B)/bin/mip: $(B)/h/mip.o $(B)/libppl.a
+	@mkdir -p $(dir $@)
+	$(CXX) $(OPT) -o $@ $< $(B)/libppl.a -lgmpxx -lgmp $(LDSAN)
+
+$(B)/bin/pip: $(B)/h/pip.o $(B)/libppl.a
+	@mkdir -p $(dir $@)
+	$(CXX) $(OPT) -o $@ $< $(B)/libppl.a -lgmpxx -lgmp $(LDSAN)
+
 # obj family: allocator shim inside; LSan (plain) or ASan+LSan at link time
 $(B)/bin/obj_%: $(B)/h/obj_%.o $(B)/libppl.a
 	@mkdir -p $(dir $@)
